@@ -556,6 +556,66 @@ def work_quartic(chunk):
     return acc
 
 
+# -- the function assigned after construction --------------------------------------------------------------
+# `fun` is a plain public attribute (the library's own examples build Hessian(None) and assign it): the object must
+# differentiate the function it holds at call time, whether that function returns a scalar or a length-1 array
+
+FUN_STARTS = ['None', 'other-function', 'used-with-other-function']
+FUN_KINDS = ['scalar', 'length-1-array']
+
+
+def work_fun_assigned(chunk):
+    import numdifftools as nd
+    from numdifftools.step_generators import MinStepGenerator
+    acc = fw.Acc()
+    n = 3
+    f, hess, size = quartic(n)
+    x = np.array([0.3, 0.4, 0.5])
+    H = hess(x)
+    allow = 1e-8 * size(x)
+
+    def other(t):
+        return np.dot(t, t) + np.exp(0.1 * t[0])
+    for entry, method, start, kind in chunk:
+        fw.fresh_library_state()
+        g = f if kind == 'scalar' else (lambda t: np.array([f(t)]))
+        case = ('fun-assigned', entry, method, start, kind)
+        jc = dict(kind='fun-assigned', entry=entry, method=method, start=start, fkind=kind)
+        record = {}
+        try:
+            with warnings.catch_warnings():
+                warnings.simplefilter('ignore')
+                with np.errstate(all='ignore'):
+                    obj = getattr(nd, entry)(None if start == 'None' else other, method=method, full_output=True,
+                                             step=MinStepGenerator(base_step=0.01, num_steps=4, step_ratio=2))
+                    if start == 'used-with-other-function':
+                        obj(x)
+                    obj.fun = g
+                    val, info = obj(x)
+                    val = np.asarray(val)
+                    record = dict(f_value=np.asarray(info.f_value), est=np.asarray(info.error_estimate))
+        except Exception as e:      # noqa: BLE001
+            acc.case(case, nontrivial=True, cell='fun-assigned/%s' % entry, outcome='raised')
+            acc.violation('C04:%s:raised-%s:fun-assigned-after-construction:%s' % (entry, type(e).__name__, kind), jc,
+                          '%s built with %s, then .fun = quartic (%s-valued): %s: %s' % (entry, start, kind, type(e).__name__, e), 1)
+            continue
+        want = H if entry == 'Hessian' else np.diag(H)
+        err = float(np.max(np.abs(val - want))) if val.shape == want.shape else float('inf')
+        prob = None
+        if not err <= allow:
+            prob = ('value', 'result %r, exact %r (max error %.3g > %.3g)' % (val.tolist(), want.tolist(), err, allow))
+        elif entry == 'Hessian' and not np.array_equal(val, val.T):
+            prob = ('asymmetric', 'result %r is not exactly symmetric' % (val.tolist(),))
+        elif not (np.size(record['f_value']) == 1 and float(np.ravel(record['f_value'])[0]) == float(f(x))):
+            prob = ('f_value', 'info.f_value = %r, f(x) = %r' % (record['f_value'].tolist(), float(f(x))))
+        acc.case(case, nontrivial=True, cell='fun-assigned/%s' % entry, outcome=prob is None)
+        if prob:
+            acc.violation('C04:%s:%s:fun-assigned-after-construction:%s' % (entry, prob[0], kind), jc,
+                          '%s(method=%r) built with %s, then .fun = quartic (%s-valued), called at %r: %s'
+                          % (entry, method, start, kind, x.tolist(), prob[1]), 1)
+    return acc
+
+
 def work_partial_rows(chunk):
     """functions that overflow or leave their domain at the largest default steps in SOME coordinates only: the entries
     with some invalid rows must still be resolved from their valid rows (closed-form Hessians)"""
@@ -664,6 +724,8 @@ def run(ctx):
     acc.merge(ctx.pmap(work_partial_rows, [(fn, m) for fn in ('overflow', 'domain') for m in REAL_STEP], chunk=1))
     acc.merge(ctx.pmap(work_buffered, [(n, m) for n in (1, 2, 3) for m in METHODS], chunk=2))
     acc.merge(ctx.pmap(work_quartic, [(n, xk, m) for n in (1, 2, 3, 4) for xk in ('mixed', 'pos') for m in METHODS], chunk=2))
+    acc.merge(ctx.pmap(work_fun_assigned, [(e, m, st, k) for e in ('Hessian', 'Hessdiag') for m in METHODS for st in FUN_STARTS
+                                           for k in FUN_KINDS], chunk=4))
     for it in (its[0], its[len(its) // 3], its[len(its) // 2], its[-1]):
         spec, n, xk = it
         x = point(xk, n)
@@ -712,6 +774,10 @@ def replay(case):
         a = work_buffered([(case['n'], case['method'])])
         bad = [r['detail'] for k, (n, recs) in a.viol.items() for r in recs]
         return not bad, '%r -> %s' % (case, bad or 'identical for every output form')
+    if case.get('kind') == 'fun-assigned':
+        a = work_fun_assigned([(case['entry'], case['method'], case['start'], case['fkind'])])
+        bad = [r['detail'] for k, (n, recs) in a.viol.items() for r in recs]
+        return not bad, '%r -> %s' % (case, bad or 'exact')
     if case.get('kind') == 'quartic':
         a = work_quartic([(case['n'], case['xkind'], case['method'])])
         bad = [r['detail'] for k, (n, recs) in a.viol.items() for r in recs]
